@@ -73,6 +73,13 @@ def inputs(tier):
               corpus.cluster_desc(('ASP', 'GLU', 'LYS'), 'line', 3.0, 'deep'), corpus.cluster_desc(('GLU', 'GLU', 'HIS'), 'star', 3.0, 'mid')):
         for k in (2, 3):
             out.append(dict(src='repeat', d=d, k=k))
+    # two conformations that differ in one atom position next to a covalently coupled system (the conformations may keep different
+    # members of the system)
+    for d, res, atom in ((corpus.cutout_desc('4DFR', 'A', 26, 12.0), 27, 'OD2'), (corpus.cutout_desc('4DFR', 'A', 26, 12.0), 27, 'OD1'),
+                         (corpus.cutout_desc('4DFR', 'B', 26, 12.0), 27, 'OD2'), (corpus.window_desc('3SGB', 'I', 0, 8), 7, 'OD1'),
+                         (corpus.window_desc('1HPX', 'A', 66, 8), 67, 'SG')):
+        for shift in ((300, 0, 0), (0, -400, 200)):
+            out.append(dict(src='altshift', d=d, res=res, atom=atom, shift=list(shift)))
     # several determinants of one group whose partners print the same label (two ions / ligand copies in one chain, residues that
     # differ only in insertion code)
     for ks in (('ASP', 'CA', 'CA'), ('GLU', 'ZN', 'MG'), ('ASP', 'ACT', 'ACT'), ('HIS', 'GLU', 'GLU'), ('GLU', 'PYR', 'PYR'), ('TYR', 'ASP', 'ASP'),
@@ -95,6 +102,17 @@ def build(inp, seed):
     if inp['src'] == 'samelabel':
         from . import c15
         return c15.build(inp, seed)
+    if inp['src'] == 'altshift':
+        s0 = corpus.build(inp['d'], seed)
+        items = list(s0.items)
+        k = next((i for i, it in enumerate(items) if not isinstance(it, str) and it.rec == 'ATOM  ' and it.resnum == inp['res'] and it.name == inp['atom']), None)
+        if k is None:
+            raise gen.Skip('no-such-atom')
+        b = items[k].clone()
+        items[k].alt, b.alt = 'A', 'B'
+        b.x, b.y, b.z = b.x + inp['shift'][0], b.y + inp['shift'][1], b.z + inp['shift'][2]
+        items.insert(k + 1, b)
+        return gen.S(items)
     if inp['src'] == 'dna':
         from . import c01
         frag = c01.dna_fragment(inp['res'], inp['n']).translate((10000, 10000, 10000))
@@ -184,8 +202,6 @@ def check_text(mol, rec, text, params, cname='AVR'):
     v = []
     p = pk.parse_pka(text)
     groups = mol.conformations[cname].groups
-    if cname != 'AVR':
-        groups = [g for g in groups if g.use_in_calculations()]
     hidden = params.remove_penalised_group
     shown = [g for g in groups if not (g.coupled_titrating_group and hidden)]
     # summary
